@@ -39,3 +39,11 @@ for sk, what in [(0, 'first key 3 bytes, second key 1 byte'), (1, 'first key 1 b
     OBS.append(Ob(['C01', 'C14'], 'dupkey_sk%d' % sk, 'jd_obj', 'harness/jd_obj.c', 'h_dupkey', defs=UO + ['SK=%d' % sk], unwind=6, cap=300, hunwind=24, fs=512,
         desc='parseObject duplicate-key rule, %s: real ObjectData/StringPool/StringBuilder, key scanner and children cut' % what,
         bound='ALL byte values (NUL included) for every key byte; token skeleton {K:v,K:v}; arena allocator'))
+UNITS += [Unit('jd_top', 'wrappers/jd.cpp', defs=SM, cuts={'CUT_PV_ALL': r'12parseVariantINS1_14AllowAllFilterE'})]
+UT = ['UNIT_H="jd_top.h"']
+OBS += [
+ Ob(['C01', 'C10', 'C16'], 'parse_top', 'jd_top', 'harness/jd_top.c', 'h_parse_top', defs=UT, unwind=5, fs='none', cap=200, hunwind=12,
+    desc='parse(): result = top-level value result, whatever byte follows a complete value (whitespace after a number included); look-ahead discipline', bound='all 3-byte inputs, all child behaviours allowed by the contract, all limits'),
+ Ob(['C10'], 'parse_top_number_garbage', 'jd_top', 'harness/jd_top.c', 'h_parse_top', defs=UT + ['KF_GARBAGE=1'], unwind=5, fs='none', cap=200, hunwind=12, kf='number-garbage',
+    desc='known finding: a top-level number followed by a non-blank byte (1, / 2] / 6a9) is InvalidInput', bound='all 3-byte inputs'),
+]
